@@ -45,7 +45,8 @@ impl InferShapes for Expand {
             // must have the same size in the output. Symbolic dimensions in the
             // input and dimensions of size 1 may broadcast.
             let data_dims: Vec<_> = data_dims.collect();
-            let pad_dims = shape_len.saturating_sub(data_dims.len() as i32);
+            // nb. `shape_len` is signed, so `saturating_sub` would not stop at zero.
+            let pad_dims = (shape_len - data_dims.len() as i32).max(0);
             let expanded_dims = data_dims.len().max(shape_len as usize) as i32;
             let out_dims = (0..expanded_dims)
                 .map(|i| {
